@@ -537,6 +537,67 @@ func runTxFlow(c *Case) ([]Obs, any) {
 					return Obs{ERR}
 				}
 				return append(Obs{OK}, f.encEvents(f.rec.take(), false)...)
+			case "reorg": // id prev [txids] valid : header id on parent prev is announced through the REAL trusted
+				// headers handler (a header competing with processed blocks makes it revert the chain, the per-height tx
+				// id files and the in-sync flag), then the block is supplied (state.AddBlock / NextBlock) and processed
+				// like Node.processBlocks does.  Observation: [code, in sync, chain height, tip id, notifications...]
+				var txs []*wire.MsgTx
+				var hashes []bitcoin.Hash32
+				for _, t := range op.Ints(2) {
+					tx, ok := tu.txs[t]
+					if !ok {
+						panic(harnessErr("undeclared tx in block"))
+					}
+					txs = append(txs, tx)
+					hashes = append(hashes, *tx.TxHash())
+				}
+				root := merkleRoot(hashes)
+				valid := op.Int(3) != 0
+				if !valid {
+					root[0] ^= 0x55
+				}
+				hdr := bu.Header(op.Int(0), op.Int(1), 1400000000+op.Int(0)*600, &root)
+				blk := &txBlock{header: *hdr, txs: txs, valid: valid}
+				nstate := f.node.VerifState()
+				finish := func(code int64) Obs {
+					blocks := f.node.VerifBlocks()
+					o := Obs{code, b2i(nstate.IsReady()), int64(blocks.LastHeight()), bu.ID(blocks.LastHash())}
+					evs := f.rec.take()
+					if code == OK {
+						o = append(o, f.encEvents(evs, false)...)
+					}
+					return o
+				}
+				// state.lastHash = the tip: what the normal flow has when no block request is pending
+				nstate.SetLastHash(*f.node.VerifBlocks().LastHash())
+				msg := wire.NewMsgHeaders()
+				h := *hdr
+				msg.AddBlockHeader(&h)
+				if _, err := f.node.VerifHandlers()[wire.CmdHeaders].Handle(ctx, msg); err != nil {
+					return finish(ERR)
+				}
+				if !nstate.AddBlock(hdr.BlockHash(), blk) {
+					return finish(ERR) // the handler did not ask for this block
+				}
+				next := nstate.NextBlock()
+				if next == nil {
+					return finish(ERR)
+				}
+				if err := f.node.ProcessBlock(ctx, next); err != nil {
+					return finish(ERR)
+				}
+				return finish(OK)
+			case "blocktxs": // height : verif accessor, the per-height relevant tx id file
+				l, err := f.node.VerifTxs().GetBlock(ctx, int(op.Int(0)))
+				if err != nil {
+					return Obs{ERR}
+				}
+				f.node.VerifTxs().ReleaseBlock(ctx, int(op.Int(0)))
+				o := Obs{OK}
+				for i := range l {
+					o = append(o, tu.ID(&l[i]))
+				}
+				return o
 			case "race_block_tx": // id prev [txids] t src : the tx message for t (first seen in this block) is handled by
 				// the tx thread while ProcessBlock is in the middle of t (fetching the outputs it spends)
 				var txs []*wire.MsgTx
